@@ -191,6 +191,34 @@ def _solve_cvc5(text: str, timeout_ms: int):
 
 
 def solve_one(job):
+    """Escalating budgets: an obligation is first given the every-change budget (10 s nominal per configuration); only if that does not
+    decide it is the whole portfolio repeated with the larger budget asked for (thorough tier, confirmation pass)."""
+    timeout_ms = job[2]
+    if timeout_ms > 10000 and job[1] is not None and not job[4]:
+        first = _solve_one(job[:2] + (10000,) + job[3:])
+        if first.status in ("unsat", "sat"):
+            return first
+    return _solve_one(job)
+
+
+def solve_retry(name, text, timeout_ms, inputs, kind, path_id, line):
+    """Second look at one failed instance, alone: the five z3 configurations at the given budget (no escalation ladder, no cvc5) --
+    bounded at five times the budget, so that a genuinely failing obligation does not cost minutes per instance."""
+    t0 = time.time()
+    last = ("unknown", None, "")
+    for nm, params in (("z3", {}), ("z3-ematch", {"smt.mbqi": False, "smt.random_seed": 7}), ("z3-mbqi", {"smt.ematching": False}),
+                       ("z3-seed3", {"smt.random_seed": 3}), ("z3-ematch-seed11", {"smt.mbqi": False, "smt.random_seed": 11})):
+        try:
+            st, model, why = _solve_z3(text, timeout_ms, inputs, True, params)
+        except z3.Z3Exception as e:
+            st, model, why = "unknown", None, f"z3 error: {e}"
+        if st in ("unsat", "sat"):
+            return Verdict(name, st, time.time() - t0, nm, model, kind, path_id, line, False, why)
+        last = (st, model, why)
+    return Verdict(name, "unknown", time.time() - t0, "z3", None, kind, path_id, line, False, last[2])
+
+
+def _solve_one(job):
     name, text, timeout_ms, inputs, cover, kind, path_id, line, use_cvc5 = job[:9]
     text_ground = job[9] if len(job) > 9 else None
     t0 = time.time()
